@@ -104,6 +104,9 @@ pub struct Behaviour {
     /// Number of packets used for a NODES answer, and the `total` it claims.
     pub nodes_packets: u64,
     pub nodes_total: Option<u64>,
+    /// A `total` of its own for every packet of the answer (one packet per element); packets
+    /// beyond the list claim `nodes_total`.
+    pub nodes_totals: Option<Vec<u64>>,
     /// enr-seq the peer claims to know of the victim in its WHOAREYOU (0 = none).
     pub known_victim_seq: u64,
     /// Attach own record to handshakes even when the victim's WHOAREYOU says it is known.
@@ -126,6 +129,7 @@ impl Default for Behaviour {
             answer_whoareyou: true,
             nodes_packets: 1,
             nodes_total: None,
+            nodes_totals: None,
             known_victim_seq: 0,
             always_attach_record: false,
             nodes_record_override: None,
@@ -505,13 +509,14 @@ impl Engine {
                 port: vaddr.port(),
             }],
             RefMessage::FindNode { distances, .. } => {
-                let n = self.peers[i].behaviour.nodes_packets.max(1);
+                let varying = self.peers[i].behaviour.nodes_totals.clone();
+                let n = varying.as_ref().map(|v| v.len() as u64).unwrap_or(self.peers[i].behaviour.nodes_packets).max(1);
                 let total = self.peers[i].behaviour.nodes_total.unwrap_or(n);
                 let own = self.peers[i].behaviour.nodes_record_override.clone().unwrap_or_else(|| self.peers[i].sim.ident.record_bytes());
                 (0..n)
                     .map(|k| RefMessage::Nodes {
                         id: id.clone(),
-                        total,
+                        total: varying.as_ref().and_then(|v| v.get(k as usize)).copied().unwrap_or(total),
                         records: if k == 0 && distances.contains(&0) { self.peers[i].behaviour.nodes_records_list.clone().unwrap_or_else(|| vec![own.clone()]) } else { vec![] },
                     })
                     .collect()
